@@ -25,6 +25,11 @@ func (e *cpEngine) evalSlice(fr *cpFrame, x *ssa.Slice) cpVal {
 	case cpPtr:
 		if b.C != nil {
 			if a, ok := b.C.V.(cpArr); ok {
+				if x.High != nil && x.Low == nil && len(a.Elems) > 0 {
+					if u, isU := e.get(fr, x.High).(cpUnk); isU && e.varintBufs[u.ID] == a.Elems[0] {
+						return cpUnk{ID: strings.Replace(u.ID, "len:", ":", 1)}
+					}
+				}
 				lo, ok1 := bound(x.Low, 0)
 				hi, ok2 := bound(x.High, int64(len(a.Elems)))
 				if ok1 && ok2 {
@@ -36,6 +41,12 @@ func (e *cpEngine) evalSlice(fr *cpFrame, x *ssa.Slice) cpVal {
 			}
 		}
 	case cpSlice:
+		if x.High != nil && x.Low == nil && len(b.Elems) > 0 {
+			if u, isU := e.get(fr, x.High).(cpUnk); isU && e.varintBufs[u.ID] == b.Elems[0] {
+				// buf[:n] right after n := PutVarint(buf, v): the varint of v
+				return cpUnk{ID: strings.Replace(u.ID, "len:", ":", 1)}
+			}
+		}
 		lo, ok1 := bound(x.Low, 0)
 		hi, ok2 := bound(x.High, int64(len(b.Elems)))
 		if ok1 && ok2 && hi <= int64(len(b.Elems)) {
@@ -207,6 +218,11 @@ func (e *cpEngine) builtin(fr *cpFrame, name string, args []cpVal, typ types.Typ
 			}
 		case cpNil:
 			return cpInt{0}, true
+		case cpUnk:
+			// the length of "that unknown slice": named, so that a length written ahead of the bytes is recognisable
+			if name == "len" {
+				return cpUnk{ID: "len(" + s.ID + ")"}, true
+			}
 		}
 	case "append":
 		if len(args) != 2 {
@@ -344,6 +360,43 @@ func (e *cpEngine) external(q string, args []cpVal, resT types.Type) (cpVal, boo
 		return s.V, ok
 	}
 	switch q {
+	case "encoding/binary.PutVarint", "encoding/binary.PutUvarint":
+		// n := PutVarint(buf, x): n is "the length of the varint of x"; buf[:n] (see evalSlice) is then that varint
+		if len(args) == 2 {
+			if id, ok := cpValID(args[1]); ok {
+				if sl, isS := args[0].(cpSlice); isS && len(sl.Elems) > 0 {
+					if e.varintBufs == nil {
+						e.varintBufs = map[string]*cpCell{}
+					}
+					tag := "varint"
+					if q == "encoding/binary.PutUvarint" {
+						tag = "uvarint"
+					}
+					e.varintBufs[tag+"len:"+id] = sl.Elems[0]
+					for _, c := range sl.Elems {
+						c.V = e.fresh("varintbyte")
+					}
+					return cpUnk{ID: tag + "len:" + id}, true
+				}
+			}
+		}
+	case "encoding/binary.AppendVarint", "encoding/binary.AppendUvarint":
+		if len(args) == 2 {
+			if id, ok := cpValID(args[1]); ok {
+				tag := "varint:"
+				if q == "encoding/binary.AppendUvarint" {
+					tag = "uvarint:"
+				}
+				switch b := args[0].(type) {
+				case cpSlice:
+					if len(b.Elems) == 0 {
+						return cpUnk{ID: tag + id}, true
+					}
+				case cpNil:
+					return cpUnk{ID: tag + id}, true
+				}
+			}
+		}
 	case "reflect.TypeOf":
 		// the type of a statically typed value: a model built from go/types (kind, name, size, element and field
 		// types), one object per type so that two calls for the same type compare equal
@@ -546,4 +599,17 @@ func cpRTypeFromGo(P *Program, t types.Type, d int) *cpRType {
 		}
 	}
 	return rt
+}
+
+// cpValID names a value for use inside another unknown's name.
+func cpValID(v cpVal) (string, bool) {
+	switch x := v.(type) {
+	case cpUnk:
+		return x.ID, true
+	case cpInt:
+		return fmt.Sprintf("%d", x.V), true
+	case cpLin:
+		return fmt.Sprintf("%s*%d+%d", x.ID, x.Mul, x.Add), true
+	}
+	return "", false
 }
